@@ -426,3 +426,13 @@ func (c *Ctx) expandInPlace(caller, callee *ssa.Function) bool {
 func stableConfigLoad(key string) bool {
 	return strings.HasPrefix(key, "Client.Config.") || strings.HasPrefix(key, "Config.")
 }
+
+// inRegion: the event happens in fn itself or in a helper introduced later that
+// is expanded in place (at any depth), not inside a known callee a rule asked
+// to have expanded.
+func (c *Ctx) inRegion(fn *ssa.Function, e *pathx.Event) bool {
+	if e.Fn == nil || e.Depth == 0 {
+		return true
+	}
+	return load.TopLevel(e.Fn) == load.TopLevel(fn) || c.isNewHelper(e.Fn)
+}
